@@ -157,7 +157,7 @@ def class0_column(rnd, size):
     values next to values for listed classes: kerning that regrouping glyph classes cannot
     express, so compaction must leave it intact.  feaLib never builds this; the tables are
     made directly as otTables.  size 1 wraps the lookup in Extension subtables (in memory)."""
-    n = 120
+    n = 400          # the glyph set of class_kern size 0, used for the second lookup
     order = names(n)
     lefts = _partition(rnd, order[1:40], 7, 3)
     rights = _partition(rnd, order[40:80], 6, 3)
@@ -178,7 +178,8 @@ def class0_column(rnd, size):
     # a second lookup (plain class kerning) so that there is something to compact as well
     m2, _t = class_kern(rnd, 0, shadow=False)
     lk2 = m2["GPOS"][0]
-    m = _model(max(n, len(m2["order"])), gpos=[lk, lk2])
+    assert len(m2["order"]) == n
+    m = _model(n, gpos=[lk, lk2])
     m["extension"] = bool(size)
     texts = []
     for l in lefts:
@@ -607,6 +608,7 @@ def add_tables(font, model):
                     ext = ot.ExtensionPos()
                     ext.Format = 1
                     ext.ExtSubTable = sub
+                    ext.ExtensionLookupType = sub.LookupType
                     lkp.SubTable[si] = ext
                 lkp.LookupType = 9
             lookups.append(lkp)
